@@ -190,7 +190,7 @@ impl World {
         let ka = || TcpKeepalive::new().with_time(Duration::from_secs(30));
         let (ep, _) = if self.configured {
             match t {
-                Transport::Tcp => self.ctl.connect_with(TransportConnect::Tcp(TcpConnectConfig::default().with_keepalive(ka())), addr).unwrap(),
+                Transport::Tcp => self.ctl.connect_with(TransportConnect::Tcp(TcpConnectConfig::default().with_keepalive(ka()).with_source_address("127.0.0.1:0".parse().unwrap())), addr).unwrap(),
                 Transport::FramedTcp => self.ctl.connect_with(TransportConnect::FramedTcp(FramedTcpConnectConfig::default().with_keepalive(ka())), addr).unwrap(),
                 Transport::Udp => self.ctl.connect_with(TransportConnect::Udp(UdpConnectConfig::default().with_source_address("127.0.0.1:0".parse().unwrap())), addr).unwrap(),
                 _ => self.ctl.connect(t, addr).unwrap(),
